@@ -9,13 +9,15 @@ WITNESSES = [("Schema_w_walk.cfg", "walk_unguarded"), ("Schema_w_guard.cfg", "no
 
 
 def sig(c):
-    return "%s[%s|%s]" % (c["frag"], ",".join("%s=%s" % kv for kv in sorted(c["refs"].items())), ",".join("%s=%s" % kv for kv in sorted(c["nums"].items()) if kv[1] != "sane"))
+    return "%s%s[%s|%s]" % (c["frag"], "+shift" if c.get("shift") else "", ",".join("%s=%s" % kv for kv in sorted(c["refs"].items())), ",".join("%s=%s" % kv for kv in sorted(c["nums"].items()) if kv[1] != "sane"))
 
 
 def concretise(model_cases):
     out = []
     for k, c in enumerate(model_cases):
         b = S.build(c["frag"], c["refs"], c["nums"])
+        if c.get("shift"):
+            b = b"%junk before the header, 33 bytes.\n" + b       # offsets are relative to the header
         out.append({"id": k, "cls": sig(c), "hex": b.hex(), "frag": c["frag"]})
     return out
 
